@@ -14,8 +14,9 @@
 //!
 //! Oracles: (1) the reference run (all octets in one piece, no notify) is
 //! compared with a small independent model of the protocol: every well-formed
-//! supported query gets exactly its response, octet for octet, and the first
-//! malformed one gets an Error PDU; (2) every schedule is compared with the
+//! supported query gets exactly its response, octet for octet, every malformed
+//! or unsupported one an Error PDU, also after earlier errors as long as the
+//! stream is still in frame; (2) every schedule is compared with the
 //! reference run: equal octets after deleting Serial Notify PDUs, Serial
 //! Notify only between responses and on PDU boundaries, at most one per notify
 //! event; the connection ends after the close; no panic, livelock or spin.
@@ -248,23 +249,69 @@ fn end_of_data(v: u8) -> Vec<u8> {
     }
 }
 
-/// The protocol model: what the property promises for a sequence of queries,
-/// as far as it promises anything. Returns the expected units and whether the
-/// prediction covers the whole sequence (it stops after the first query that
-/// must be answered with an Error PDU, and at a client Error PDU: what the
-/// server does with the octets after those is not fixed by the property).
+/// What the model knows about the version the connection has settled on.
+#[derive(Clone, Copy, Debug, PartialEq, Eq)]
+enum Negotiated {
+    /// No query with a supported version has been seen yet.
+    No,
+    /// Settled by a query.
+    Yes(u8),
+    /// A PDU that is not a query carried this (supported) version as the
+    /// first PDU of the connection. RFC 8210 section 7 lets the first *query*
+    /// tell the cache the version; whether another PDU type does so too is
+    /// not fixed by the property, so both readings are kept: a later query
+    /// with this version is predicted, one with another version is not.
+    Maybe(u8),
+}
+
+/// The protocol model: what the property promises for a sequence of client
+/// PDUs. Returns the expected response units and whether the prediction
+/// covers the whole sequence.
+///
+/// The model keeps predicting after every error after which the stream is
+/// still in frame and the connection state is defined:
+///
+/// * a header-only PDU with an unsupported version draws an Error PDU and
+///   negotiates nothing (RFC 8210 section 7: the cache answers with error 4
+///   and the router retries with a lower version), whatever came before;
+/// * a header-only query whose version differs from the negotiated one draws
+///   an Error PDU and leaves the negotiated version as it was;
+/// * a header-only PDU that is not a query draws an Error PDU (see
+///   `Negotiated::Maybe` for the version).
+///
+/// It stops where the octets after the offending PDU are no longer in frame
+/// for a reader that answers a bad header at once (a 12- or 13-octet serial
+/// query rejected on its header: the body is left in the stream), at a
+/// client Error PDU (RFC 8210 section 10 makes error reports fatal for the
+/// session while the property text promises nothing either way), and at a
+/// query whose version contradicts a `Maybe`.
 fn model(seq: &[Q]) -> (Vec<Expect>, bool) {
     let mut out = Vec::new();
-    let mut negotiated: Option<u8> = None;
+    let mut negotiated = Negotiated::No;
     for q in seq {
         let v = match *q {
             Q::Reset(v) | Q::Serial(v, _) => v,
-            Q::BadVersion | Q::BadLength | Q::NotAQuery => { out.push(Expect::ErrorPdu); return (out, false) }
+            // header-only, in frame; nothing is negotiated, nothing is forgotten
+            Q::BadVersion => { out.push(Expect::ErrorPdu); continue }
+            // header-only (version 1 in the alphabet), in frame
+            Q::NotAQuery => {
+                out.push(Expect::ErrorPdu);
+                if negotiated == Negotiated::No { negotiated = Negotiated::Maybe(1) }
+                continue
+            }
+            // the body stays in the stream: out of frame from here on
+            Q::BadLength => { out.push(Expect::ErrorPdu); return (out, false) }
             Q::ErrorPdu => return (out, false),
         };
         match negotiated {
-            Some(n) if n != v => { out.push(Expect::ErrorPdu); return (out, false) }
-            _ => negotiated = Some(v),
+            Negotiated::Yes(n) if n != v => {
+                out.push(Expect::ErrorPdu);
+                // a reset query is its header: still in frame, version unchanged;
+                // a serial query leaves its body behind
+                if matches!(q, Q::Reset(_)) { continue } else { return (out, false) }
+            }
+            Negotiated::Maybe(n) if n != v => return (out, false),
+            _ => negotiated = Negotiated::Yes(v),
         }
         let mut unit = Vec::new();
         match *q {
@@ -511,7 +558,7 @@ fn main() {
 
     //--- (1) reference runs against the protocol model ----------------------
     let sp = ctx.space("reference.model",
-        "every sequence of <= 3 PDUs over the 10-symbol client alphabet, delivered in one piece, no notify, then close; compared with the independent protocol model (exact response octets for every well-formed supported query up to and including the first query that must draw an Error PDU); non-trivial = streams with at least one query the model predicts a data response for");
+        "every sequence of <= 3 PDUs over the 10-symbol client alphabet, delivered in one piece, no notify, then close; compared with the independent protocol model: exact response octets for every well-formed supported query and an Error PDU for every malformed or unsupported one, continuing after every error that leaves the stream in frame (unsupported version / version switch / non-query on a header-only PDU), stopping only at a serial query rejected on its header (body left in the stream), a client Error PDU, or a version the model cannot know; non-trivial = streams with at least one query the model predicts a data response for");
     let mut refs: Vec<Obs> = Vec::with_capacity(streams.len());
     let mut oc: BTreeMap<&'static str, u64> = BTreeMap::new();
     for st in &streams {
@@ -552,7 +599,11 @@ fn main() {
                 *oc.entry(match *ty { T_RESPONSE => "unit:data", T_RESET => "unit:cache-reset", _ => "unit:error" }).or_insert(0) += 1;
             }
         }
-        *oc.entry(if complete { "model-predicts-whole-stream" } else { "model-stops-at-first-error" }).or_insert(0) += 1;
+        *oc.entry(if complete { "model-predicts-whole-stream" } else { "model-stops:out-of-frame-or-undefined" }).or_insert(0) += 1;
+        if let Some(i) = expect.iter().position(|e| matches!(e, Expect::ErrorPdu)) {
+            if i + 1 < expect.len() { *oc.entry("model-predicts-past-an-error").or_insert(0) += 1 }
+            if expect[i + 1..].iter().any(|e| matches!(e, Expect::Exact(_))) { *oc.entry("model-predicts-data-after-an-error").or_insert(0) += 1 }
+        }
         refs.push(obs);
     }
     sp.merge_outcomes(&oc);
